@@ -12,7 +12,7 @@ use crate::exch_run::{replay_exchange, run_exchanges};
 use crate::gen::*;
 use crate::refmodel::framing::{decide, Framing};
 
-pub const RULE: &str = "full product: request version {1.0,1.1} x request Connection {absent, close, keep-alive, keep-alive+close as two fields} x request kind {GET, HEAD, CONNECT (HTTP/1.1), POST with Content-Length, POST with Expect, GET carrying an Expect header, GET obtained by following a 302 of a POST} x Expect outcome {100 received / late 100 after give-up, silent server + give-up, refused bare, refused with fields, refused with a first field line of 280 bytes} x response version {1.0,1.1} x status {200,204,205,300,304,404,302 and 399 with Location; 101 and 103 as bare answers to Expect} x response framing {none, Content-Length: 0, Content-Length: 3, chunked} x response Connection {absent, close, keep-alive, keep-alive+close, close preceded by an empty-valued field}; every cell explored through the real flow under all mixtures of whole-message and 1-byte arrivals (quick: whole-message arrivals + give-up at every point), verdict read in the Redirect state and in Cleanup; part b: every prefix, cut after the complete Location line, of 3xx heads with Connection / framing fields before and after the Location line (3 methods x 3 statuses x 7 x 4 field sets x every cut): whenever the library accepts such a prefix as a complete response (known finding KF1 of C05) the exchange must end must-close; part c: every cell once more along the canonical schedule with a driver that judges nothing but the final verdict against the ground truth of the server script. distinct = distinct (cell, final observation) pairs";
+pub const RULE: &str = "full product: request version {1.0,1.1} x request Connection {absent, close, keep-alive, keep-alive+close as two fields} x request kind {GET, HEAD, CONNECT (HTTP/1.1), POST with Content-Length, POST with Expect, GET carrying an Expect header, GET obtained by following a 302 of a POST (sent after the body, or instead of the 100)} x Expect outcome {100 received / late 100 after give-up, (GET: a stray 100 ahead of the final response), silent server + give-up, refused bare, refused with fields, refused with a first field line of 280 bytes} x response version {1.0,1.1} x status {200,204,205,300,304,404,302 and 399 with Location; 101 and 103 as bare answers to Expect} x response framing {none, Content-Length: 0, Content-Length: 3, chunked} x response Connection {absent, close, keep-alive, keep-alive+close, close preceded by an empty-valued field}; every cell explored through the real flow under all mixtures of whole-message and 1-byte arrivals (quick: whole-message arrivals + give-up at every point), verdict read in the Redirect state and in Cleanup; part b: every prefix, cut after the complete Location line, of 3xx heads with Connection / framing fields before and after the Location line (3 methods x 3 statuses x 7 x 4 field sets x every cut): whenever the library accepts such a prefix as a complete response (known finding KF1 of C05) the exchange must end must-close; part c: every cell once more along the canonical schedule with a driver that judges nothing but the final verdict against the ground truth of the server script. distinct = distinct (cell, final observation) pairs";
 
 const LONG_WHY: &str = "the-upload-is-not-wanted-here-because-of-a-policy-that-takes-a-very-long-sentence-to-explain-and-then-some-more-words-to-get-beyond-two-hundred-and-fifty-six-bytes-in-a-single-header-field-line-which-is-entirely-legal-if-unusual-0123456789-0123456789-0123456789-0123456789";
 
@@ -21,14 +21,14 @@ pub fn build(tier: Tier) -> Vec<Arc<ExchCfg>> {
     let conns: [&[&str]; 4] = [&[], &["close"], &["keep-alive"], &["keep-alive", "close"]];
     for rver in ["1.0", "1.1"] {
         for rconn in conns {
-            for kind in ["GET", "HEAD", "POST", "POST-expect", "GET-expect", "GET-via-redirect", "CONNECT"] {
+            for kind in ["GET", "HEAD", "POST", "POST-expect", "GET-expect", "GET-via-redirect", "GET-via-refusing-redirect", "CONNECT"] {
                 if kind == "CONNECT" && rver == "1.0" {
                     continue; // not defined for HTTP/1.0 (C17)
                 }
                 let (method, expect) = match kind {
                     // the request of a flow obtained by following a redirect of a POST (inherits version,
                     // Connection and Expect headers; its own close conditions start afresh)
-                    "GET-via-redirect" => ("GET", true),
+                    "GET-via-redirect" | "GET-via-refusing-redirect" => ("GET", true),
                     "POST-expect" => ("POST", true),
                     // an Expect header on a request without body (nothing is awaited)
                     "GET-expect" => ("GET", true),
@@ -38,18 +38,21 @@ pub fn build(tier: Tier) -> Vec<Arc<ExchCfg>> {
                 for c in rconn {
                     rs.cfg = rs.cfg.orig("connection", c);
                 }
-                let prep: Option<crate::exch::PrepFn> = if kind == "GET-via-redirect" {
+                let prep: Option<crate::exch::PrepFn> = if kind == "GET-via-redirect" || kind == "GET-via-refusing-redirect" {
+                    // (the second kind: the redirect arrives INSTEAD of the 100, so the first exchange ends with the
+                    // reason "non-100 response"; that reason is the first exchange's, not the next one's)
+                    let refusing = kind == "GET-via-refusing-redirect";
                     let rver = rver.to_string();
                     let rconn: Vec<String> = rconn.iter().map(|s| s.to_string()).collect();
                     Some(Arc::new(move || {
-                        use crate::chain::{follow, Followed, Loc};
+                        use crate::chain::{Followed, Loc};
                         let mut orig = crate::driver::ReqCfg::new("POST", &rver, "http://a.test/p").orig("content-length", "3").orig("expect", "100-continue");
                         for c in &rconn {
                             orig = orig.orig("connection", c);
                         }
                         orig = orig.orig("x-trace", "t1");
                         let pf = orig.build_prepare()?;
-                        match follow(&pf, b"abc", 302, &Loc::one("/next"), false)? {
+                        match crate::chain::follow_ex(&pf, b"abc", 302, &Loc::one("/next"), false, refusing)? {
                             Followed::New(f) => Ok(f),
                             _ => Err("redirect not followed".into()),
                         }
@@ -57,7 +60,7 @@ pub fn build(tier: Tier) -> Vec<Arc<ExchCfg>> {
                 } else {
                     None
                 };
-                let outcomes: &[&str] = if expect && method == "POST" { &["100", "silent", "refused-bare", "refused-fields", "refused-long"] } else { &["na"] };
+                let outcomes: &[&str] = if expect && method == "POST" { &["100", "silent", "refused-bare", "refused-fields", "refused-long"] } else if kind == "GET" { &["na", "stray-100"] } else { &["na"] };
                 for oc in outcomes {
                     for sver in ["1.0", "1.1"] {
                         for status in [200u16, 204, 304, 404, 302, 101, 103, 300, 205, 399] {
@@ -84,6 +87,9 @@ pub fn build(tier: Tier) -> Vec<Arc<ExchCfg>> {
                                     if *oc == "refused-fields" {
                                         extra.push(("X-Why", "no"));
                                     }
+                                    if *oc == "stray-100" && !(fr == "cl3" && sver == "1.1" && matches!(status, 200 | 302 | 404)) {
+                                        continue; // the stray interim response is combined with three final responses
+                                    }
                                     if *oc == "refused-long" {
                                         // status line plus first field line well beyond 128 / 256 bytes
                                         if !(fr == "cl0" && sconn.is_empty() && (status == 200 || status == 404)) {
@@ -105,7 +111,7 @@ pub fn build(tier: Tier) -> Vec<Arc<ExchCfg>> {
                                     let te = fm.get("transfer-encoding").map(|v| String::from_utf8_lossy(v).to_string());
                                     let close = decide(method, status, sver == "1.1", cl.as_deref(), te.as_deref()) == Framing::Close;
                                     let srv: Vec<ServerMsg> = match *oc {
-                                        "100" => server(fm, Some(interim_100("1.1", "Continue")), Gate::AfterBody),
+                                        "100" | "stray-100" => server(fm, Some(interim_100("1.1", "Continue")), Gate::AfterBody),
                                         "refused-bare" | "refused-fields" | "refused-long" => server(fm, None, Gate::AfterHead),
                                         _ => server(fm, None, Gate::AfterBody),
                                     };
